@@ -63,6 +63,13 @@ impl Ctx {
             self.monitor_fails.push((property.to_string(), key.to_string(), desc, replay_json));
         }
     }
+    /// Leave a note naming the input the implementation is about to be run on.  If the process then dies of something no
+    /// `catch_unwind` can intercept (an allocation failure abort, a stack overflow, a kill), the check finds the note and reports
+    /// that input as the concrete failing one.  `crumb_clear` removes the note once the call has returned.
+    pub fn crumb(&self, property: &str, desc: &str, replay_json: &str) {
+        let _ = std::fs::write(self.out.join("crumb.json"), format!("{{\"property\": {}, \"desc\": {}, \"replay\": {}}}", json_str(property), json_str(desc), replay_json));
+    }
+    pub fn crumb_clear(&self) { let _ = std::fs::remove_file(self.out.join("crumb.json")); }
     pub fn finish(mut self) {
         self.ops.flush().unwrap();
         self.imp.flush().unwrap();
